@@ -259,7 +259,9 @@ def first_diff(a, b):
     for i in range(max(len(a), len(b))):
         x = a[i] if i < len(a) else "<missing>"
         y = b[i] if i < len(b) else "<missing>"
-        if x != y:
+        if x != y and not (" || " in x and y in x.split(" || ")):
+            # "A || B" in the model's answer lists the alternatives an implementation may choose
+            # between (map iteration order, unstable sort)
             return i, x, y
     return None
 
